@@ -557,6 +557,9 @@ def holds_impl(segs, o):
         if z and closedc and not isinstance(segs[-1], Line) and len(q) == n and kinds_p[:-1] == kinds_q[:-1] \
                 and isinstance(q[-1], Line):
             return 'd-closed-attrib-drops-closing-curve', 'closing %s re-parsed as a Line' % kinds_p[-1][0]
+        if z and closedc and not isinstance(segs[-1], Line) and kinds_q == kinds_p[:-1]:
+            return 'd-closed-attrib-drops-closing-curve', ('closing %s dropped altogether (it starts and ends on the '
+                                                           'start of the path, so Z adds nothing)') % kinds_p[-1][0]
         return 'd-segments-dropped-added-or-changed-kind', 'kinds %s became %s' % (kinds_p, kinds_q)
     bad = []
     for i, (a, b) in enumerate(zip(segs, q)):
